@@ -102,6 +102,30 @@ def handle (op : String) (a : Json) : P Json := do
             (match step m o with | .ok m' => errs m' os | .error _ => [])
       pure <| okJ <| Json.mkObj [("ids", intsJ (n.lanelets.map (·.id))), ("pos", pos), ("shape", sh),
         ("caught", Json.arr (errs n0 ops).toArray)]
+  | "world" =>
+    -- several live networks: `wops` = [{"on": k, "op": {...}} | {"fork": k, "shift": s}]; the answer lists, per slot,
+    -- ids / position lookups / shape lookups of THAT network
+    let tol ← getRat a "tol"
+    let init ← field a "init"
+    let n0 : Net ← match fieldOpt init "fromList" with
+      | some ls => do
+        let k ← getNat init "shift"
+        pure (fromList (fun x => x + k) (← listOf laneletOf ls))
+      | none => pure Net.empty
+    let wopOf : Json → P WOp := fun j => do
+      match fieldOpt j "fork" with
+      | some k => let s ← getNat j "shift"; pure (.fork (← asNat k) (fun x => x + s))
+      | none => pure (.on (← getNat j "on") (← opOf (← field j "op")))
+    let wops ← getList wopOf a "wops"
+    let pts ← getList ptOf a "pts"
+    let shapes ← getList shapeOf a "shapes"
+    match wrun [n0] wops with
+    | .error e => pure (errJ e)
+    | .ok w =>
+      pure <| okJ <| Json.arr (w.map (fun n => Json.mkObj [
+        ("ids", intsJ (n.lanelets.map (·.id))),
+        ("pos", resJ (fun (r : List (List Int)) => Json.arr (r.map intsJ).toArray) (findByPosition (treeWithin tol) n pts)),
+        ("shape", Json.arr (shapes.map (fun s => resJ intsJ (findByShape treeMeets n s))).toArray)])).toArray
   | "contains_points" =>
     let l ← laneletOf (← field a "lanelet")
     let pts ← getList ptOf a "pts"
